@@ -74,9 +74,9 @@ class RefBroker:
         return self.net.sched.now
 
     def send(self, ch, fr, reply=None):
-        if self.silent or self.sock.peer_closed:
-            return
         name = getattr(fr, 'name', type(fr).__name__)
+        if (self.silent and name not in getattr(self, 'silent_except', ())) or self.sock.peer_closed:
+            return
         if reply is None:
             reply = self.replying
         self.ledger.append((self.now, 'out', ch, name, fr))
